@@ -163,7 +163,7 @@ Definition spec_minnorm (n m : nat) (A B : smx) (sel : seq nat) : option minnorm
    values must split cleanly around eps — the smallest non-zero singular value of A is at least
    1/sqrt(tr X tr Xd), the computed "zero" singular values are of order u ||A|| — otherwise the case
    is not compared (code 1).  codes: 3 coefficients, 4 residuals, 8 non-finite / shapes *)
-Definition check_rankdef (cu2 floor2 k2max eps2 : F) (n m : nat) (w : option (seq F)) (Phi Y : smx)
+Definition check_rankdef (mode : nat) (cu2 floor2 k2max eps2 : F) (n m : nat) (w : option (seq F)) (Phi Y : smx)
            (sel : seq nat) (Cimpl : smx) (Rimpl : seq F) : nat :=
   let A := wscale w Phi in
   let B := wscale w Y in
@@ -178,8 +178,8 @@ Definition check_rankdef (cu2 floor2 k2max eps2 : F) (n m : nat) (w : option (se
       else
         let t2 := tol2_solve cu2 n m (mn_k2 mn) in
         let bn := Num.max (Num.max (sfro2 B) (sfro2 A * sfro2 Cimpl)) floor2 in
-        if ~~ close2 t2 floor2 (flatten Cimpl) (flatten (mn_C mn)) then 3%N
-        else if ~~ (svnrm2 (svsub Rimpl (flatten (ssub B (smul n A (mn_C mn))))) <= t2 * bn) then 4%N
+        if odd mode && ~~ close2 t2 floor2 (flatten Cimpl) (flatten (mn_C mn)) then 3%N
+        else if odd (mode %/ 2) && ~~ (svnrm2 (svsub Rimpl (flatten (ssub B (smul n A (mn_C mn))))) <= t2 * bn) then 4%N
         else 0%N
   end.
 
@@ -286,4 +286,10 @@ Definition check_stats (cu2 floor2 k2max : F) (n m p : nat) (w : option (seq F))
                all (fun ru => close1 e2 floor2 ru.1 (b.1 * ru.2) && (0 <= ru.1)) (zip b.2 (sb_usigma o)))
              (sb_bands o) then 30%N
   else 0%N.
+(* the band relation alone (used for fits with many samples, where the full statistics check would be slow):
+   radius_i = t * sigma_i, sigma_i >= 0; code 0 ok, 30 band, 31 shapes *)
+Definition check_band (cu2 floor2 : F) (n : nat) (t : F) (usigma radius : seq F) : nat :=
+  if ~~ ((size usigma == n) && (size radius == n)) then 31%N
+  else if all (fun ru => close1 (cu2 * n%:R) floor2 ru.1 (t * ru.2) && (0 <= ru.1) && (0 <= ru.2)) (zip radius usigma)
+       then 0%N else 30%N.
 End Numeric.
